@@ -1,3 +1,4 @@
+import time
 """Per-property tables and the check engine."""
 import os, sys, json, re, time, subprocess, hashlib
 from collections import Counter
@@ -364,6 +365,34 @@ class Engine:
                                rc=p.returncode, tail=out[-600:] if p.returncode != 0 else "")
         return ok
 
+    def coqchk(self):
+        """thorough tier: re-check the compiled Props file and everything it depends on with the
+        independent checker, and compare the axioms it reports with the per-theorem allowlist"""
+        t0 = time.time()
+        p = subprocess.run(["coqchk", "-silent", "-o", "-Q", os.path.join(COQ, "theories"), "Muxide", "Muxide.Props." + self.pid],
+                           stdout=subprocess.PIPE, stderr=subprocess.STDOUT, timeout=3000, cwd=COQ)
+        out = p.stdout.decode()
+        ax, sect = [], None
+        for line in out.split("\n"):
+            t = line.strip()
+            if t.startswith("* "):
+                sect = t
+                if "<none>" in t:
+                    sect = None
+                continue
+            if sect and t:
+                ax.append((sect.split(":")[0][2:], t))
+        allowed = set()
+        for l in self.P.get("axiom_allow_for", {}).values():
+            allowed.update(l)
+        allowed.update(self.P.get("axiom_allow", []))
+        bad = [a for a in ax if not (a[0].startswith("Axioms") and any(a[1].endswith(x) for x in allowed))]
+        self.audit_info["coqchk"] = dict(rc=p.returncode, seconds=round(time.time() - t0, 1), reported=[a[1] for a in ax],
+                                         not_allowed=["%s: %s" % a for a in bad], tail=out[-400:] if p.returncode else "")
+        self.notes.append("coqchk -o on Props.%s: rc=%d in %.0f s; axioms reported: %s" % (
+            self.pid, p.returncode, time.time() - t0, ", ".join(a[1] for a in ax) or "<none>"))
+        return p.returncode == 0 and not bad
+
     # ---------- cases
     def corpus(self):
         d = os.path.join(VERIF, "corpus", self.pid)
@@ -432,6 +461,10 @@ class Engine:
         P = self.P
         if not self.audit():
             print("proof stage failed for %s: %s" % (self.pid, json.dumps(self.audit_info)[:1500]))
+            print("the Coq development itself does not check: this check is broken, no verdict")
+            return 2
+        if self.tier == "thorough" and not self.coqchk():
+            print("independent checker (coqchk) rejects Props.%s: %s" % (self.pid, json.dumps(self.audit_info.get("coqchk"))[:1200]))
             print("the Coq development itself does not check: this check is broken, no verdict")
             return 2
         cases = self.gen_cases()
@@ -1773,7 +1806,7 @@ PROPS["C07"]["extra"] = extra_C07
 PROPS["C04"]["fams"] = PROPS["C04"]["fams"] + [("fam_av1_syntax", 40, 1000)]
 PROPS["C12"]["fams"] = PROPS["C12"]["fams"] + [("fam_av1_syntax", 60, 2000)]
 
-PROPS["C14"]["fams"] = PROPS["C14"]["fams"] + [("fam_exh_annexb", 0, 100000)]
+PROPS["C14"]["fams"] = PROPS["C14"]["fams"] + [("fam_exh_annexb", 1, 100000)]
 PROPS["C12"]["fams"] = PROPS["C12"]["fams"] + [("fam_exh_annexb", 0, 20000), ("fam_exh_frag", 0, 10000)]
 PROPS["C10"]["fams"] = PROPS["C10"]["fams"] + [("fam_exh_frag", 0, 50000)]
 PROPS["C11"]["fams"] = PROPS["C11"]["fams"] + [("fam_exh_frag", 0, 10000)]
@@ -1802,3 +1835,5 @@ for _p in ("C12", "C06", "C04", "C16", "C05"):
 PROPS["C12"]["fams"] = PROPS["C12"]["fams"] + [("fam_names", 150, 5000)]
 PROPS["C20"]["fams"] = PROPS["C20"]["fams"] + [("fam_names", 150, 5000)]
 PROPS["C03"]["axiom_allow_for"] = {"C03_tick_is_the_rounded_real_product": REALS_AXIOMS}
+for _p in ("C15", "C01", "C08"):
+    PROPS[_p]["fams"] = PROPS[_p]["fams"] + [("fam_interleave_ties", 120, 3000)]
